@@ -2,6 +2,7 @@
 import json
 import re
 from ..suites import serde as S
+from ..suites import extras as X
 
 ID = "C05"
 SUITE = "serde"
@@ -15,29 +16,55 @@ RULE = ("classes over the serializable fragment (scalars, Enum by name, Array/Se
         "structures, Optional/AnyOf; 20% with lossy kinds Anything/untyped collections/OneOf/AllOf/NotField), with and "
         "without _ignore_none and additional properties; up to 4 valid instances per class; Serializer -> json.dumps -> "
         "Deserializer -> ==, serialize() vs Serializer, fixpoint; keep_undefined in {True, False, None} x "
-        "ignore_invalid_additional_properties in {True, False}; non-trivial = constraint or nesting; distinct by case hash")
+        "ignore_invalid_additional_properties in {True, False}; non-trivial = constraint or nesting; distinct by case hash; "
+        "plus an oracle-only stream (suites/extras.py, no model counterpart): DecimalNumber, Enum by value and by name over "
+        "plain/IntEnum/Flag/str enums with falsy members, DateField/DateTime/DateString/TimeString/EmailAddress/HostName/"
+        "IPV4, each bare / Optional / Array / Deque / Set / Map / Tuple / nested collections / nested class, every leaf x "
+        "wrapper once (directed) and random mixes")
 ASSUMPTIONS = [
-    "mapper-free (key-renaming mappers: C07); Enum serialization_by_value, DecimalNumber and date/time fields are not in the model yet",
+    "mapper-free (key-renaming mappers: C07); Enum serialization_by_value, DecimalNumber and date/time fields are not in the Lean model: the statement is executed on them on the real code only (extras stream)",
     "structures held at untyped positions (Anything, untyped Array/Map) are outside the model",
 ]
 
 
 def cases(rng, tier):
-    return [c for c in S.gen_cases(rng, tier, 250 if tier == "quick" else 3500) if c["mode"] == "roundtrip"]
+    return [c for c in S.gen_cases(rng, tier, 250 if tier == "quick" else 3500) if c["mode"] == "roundtrip"] \
+        + X.directed_cases() + X.gen_cases(rng, 300 if tier == "quick" else 6000)
 
 
 def search_cases(rng, tier):
-    return [c for c in S.gen_cases(rng, "thorough", 800) if c["mode"] == "roundtrip"]
+    return [c for c in S.gen_cases(rng, "thorough", 800) if c["mode"] == "roundtrip"] + X.gen_cases(rng, 1500)
 
 
-run_impl = S.run_impl
-line = S.line
-tags = S.tags
-nontrivial = S.nontrivial
-describe = S.describe
+def _x(case):
+    return case.get("suite") == "extras"
+
+
+def run_impl(case):
+    return X.run_impl(case) if _x(case) else S.run_impl(case)
+
+
+def line(case, impl):
+    return None if _x(case) else S.line(case, impl)
+
+
+def tags(case, impl, model):
+    if _x(case):
+        return ["stream:extras"] + (["extras:skipped"] if "skip" in impl else ["extras:" + k for k in impl.get("kinds", [])])
+    return S.tags(case, impl, model)
+
+
+def nontrivial(case):
+    return True if _x(case) else S.nontrivial(case)
+
+
+def describe(case, impl, model):
+    return {"extras": case["fields"], "doc": impl.get("doc"), "equal": impl.get("equal")} if _x(case) else S.describe(case, impl, model)
 
 
 def judge(case, impl, model):
+    if _x(case):
+        return None, X.judge(case, impl)
     msg = S.correspondence(case, impl, model)
     fails = []
     if "unbuildable" in impl or "abstraction_mismatch" in impl or "ser" not in impl:
